@@ -435,7 +435,7 @@ def linktwins(cfg=None, reopen_ok=True):
     def build(a, b, files, k, lnk, mid, which, shift, tail):
         ops = [dict(a, d=0, reuse=0), dict(b, d=0, reuse=0)]
         ops += [dict(f, d=1, reuse=0) for f in files]                       # files in the first directory
-        ops.append(dict(lnk, b=k % len(files), j=0, to=0, d=2, reuse=7, symsrc=0))      # ... one of them also in the second, same name
+        ops.append(dict(lnk, b=k % len(files), j=0, to=0, d=2, reuse=7, symsrc=0, dupnew=0, within=(lnk.get('within', 0) if lnk.get('within') in (1, 2) else 0)))      # ... one of them also in the second, same name (ISO9660, or Joliet when drawn)
         ops += mid
         ops.append({'k': 'rm_link', 'b': k % len(files), 'j': which})        # sorted names: the first directory's comes first
         ops += shift
